@@ -1,5 +1,7 @@
 import Mp4ff.Model.Segmenter
 import Mp4ff.Lemmas.C11
+import Mp4ff.Model.Combine
+import Mp4ff.Lemmas.C05
 /-!
 # C11 — segmenting, resegmenting and multiplexing conserve every sample
 Property theorems about `Model/Segmenter.lean`: the three grouping algorithms (segmenter intervals, resegmenter loop,
@@ -73,6 +75,23 @@ theorem nrAt_of_start (b : Stts) (h : b.OK) (hpos : ∀ d ∈ b.delta, 0 < d) (h
 
 /-- non-vacuity: three sync points over 10 samples -/
 example : intervals 10 (fun t => some (t / 10 + 1)) id [⟨1, 0, 0⟩, ⟨4, 30, 30⟩, ⟨8, 70, 70⟩] = some [(1, 3), (4, 7), (8, 10)] := by
+  decide
+
+/-- **combining single-track segments conserves every track's samples**: per output track a reader gets exactly the
+    samples the input fragment expands to with the trex of its own init segment — for any number of inputs, any input
+    run (optimised or not, values in the run, in tfhd or in trex) and whatever defaults the combined init carries -/
+theorem combine_conserves (inputs : List Frag.CombineInput) (outTfhd : Frag.Tfhd) (outTrex : Frag.Trex) :
+    Frag.combine inputs outTfhd outTrex = inputs.map fun i => Frag.readBack i.tfhd i.trex i.run := by
+  unfold Frag.combine
+  apply List.map_congr_left
+  intro i _
+  exact Frag.readBack_fresh outTfhd outTrex _ ⟨rfl, rfl, rfl, rfl, rfl⟩
+
+/-- … which is false for the tool as it was (inputs expanded without their trex): a run whose durations come from the
+    trex default comes out with duration 0 (repaired in /repo, known finding C11-combine-trex-defaults) -/
+theorem combineNoTrex_loses :
+    Frag.combineNoTrex [⟨{}, { defDur := 20 }, { hasDur := false, samples := [⟨0, 20, 5, 0⟩] }⟩] {} {} = [[⟨0, 0, 5, 0⟩]] ∧
+    Frag.combine [⟨{}, { defDur := 20 }, { hasDur := false, samples := [⟨0, 20, 5, 0⟩] }⟩] {} {} = [[⟨0, 20, 5, 0⟩]] := by
   decide
 
 end Mp4ff.Segmenter.C11
